@@ -21,17 +21,79 @@ RULE = (
     "Cases = source of 0..60 samples (thorough ..400) with distinct content x width 1/2/4 x 1-3 channels x rate x "
     "block B in 1..12 samples x hop (none, = B, 1..B-1), durations passed as k/rate or, one case in three, with a "
     "quarter/half/three-quarter sample added (so hop_dur < block_dur may mean the same number of samples) x max_read (none, k samples, k+1/4, k+3/4 samples; 0 and "
-    "beyond the end included) x source kind (bytes, BufferAudioSource - fresh or already partly consumed -, lazy raw file, lazy wav file, standard input behind a BytesIO or a real OS pipe fed in uneven pieces) x 1-5 reads past "
+    "beyond the end included) x source kind (bytes, BufferAudioSource - fresh or already partly consumed -, lazy raw file, lazy wav file, standard input behind a BytesIO or a real OS pipe fed in uneven pieces, a raw 'file' that is a named pipe being written while it is read) x 1-5 reads past "
     "the end; plus rejected configurations (block shorter than a sample, block 0, hop > block). Oracle: closed-form "
     "block sequence over the visible prefix (chunks of B; with overlap block k = samples [k*hop, k*hop+B)), then None "
     "on every further call; block_size/hop_size/block_dur equal the model; ValueError for the rejected ones. "
     "Non-trivial = overlap with >= 3 blocks, or max_read strictly inside a block, or visible data shorter than a block."
 )
 MUST_HIT = ["source_already_partly_consumed", "fractional_durations", "hop_lt_block_same_samples", "empty_visible_with_overlap", "over_reads", "overlap_3_blocks", "max_read_inside_block",
-            "visible_shorter_than_block", "rejected", "kind_wav_lazy", "kind_raw_lazy"]
+            "visible_shorter_than_block", "rejected", "kind_wav_lazy", "kind_raw_lazy", "kind_stdin", "kind_stdin_pipe",
+            "kind_raw_fifo"]
 ASSUMPTIONS = ["durations are passed as k/rate; where the exact product lies within 1e-9 of an integer either neighbour is accepted for block/hop size"]
 BOUNDS = {"quick": dict(n=1200, maxN=60), "thorough": dict(n=8000, maxN=400)}
-KINDS = ("bytes", "buffer", "raw_lazy", "wav_lazy", "stdin", "stdin_pipe")
+KINDS = ("bytes", "buffer", "raw_lazy", "wav_lazy", "stdin", "stdin_pipe", "raw_fifo")
+
+
+class _FifoFeeder:
+    """A named pipe standing for a raw 'file' that is produced while it is read (a recorder writing
+    to a FIFO).  Pieces do not line up with samples or blocks and the next piece is written only once
+    the pipe has been drained, so a reader content with a partial read sees short blocks every time,
+    while a buffered blocking read is exact."""
+
+    def __init__(self, path, data, sizes):
+        import array
+        import fcntl
+        import termios
+        import threading
+        import time
+
+        os.mkfifo(path)
+        self.stop = False
+
+        def feed():
+            fd = None
+            t0 = time.time()
+            while fd is None and not self.stop and time.time() - t0 < 30:
+                try:
+                    fd = os.open(path, os.O_WRONLY | os.O_NONBLOCK)
+                except OSError:
+                    time.sleep(0.0005)  # no reader yet
+            if fd is None:
+                return
+            buf = array.array("i", [0])
+            pos = i = 0
+            try:
+                while pos < len(data) and not self.stop:
+                    t1 = time.time()
+                    while not self.stop and time.time() - t1 < 20:
+                        try:
+                            fcntl.ioctl(fd, termios.FIONREAD, buf)
+                        except OSError:
+                            break
+                        if buf[0] == 0:
+                            break
+                        time.sleep(0.0002)
+                    n = sizes[i % len(sizes)]
+                    try:
+                        os.write(fd, data[pos: pos + n])
+                    except BlockingIOError:
+                        time.sleep(0.0005)
+                        continue
+                    pos += n
+                    i += 1
+                    time.sleep(0.0003)
+            except OSError:
+                pass
+            finally:
+                os.close(fd)
+
+        self.thread = threading.Thread(target=feed, daemon=True)
+        self.thread.start()
+
+    def finish(self):
+        self.stop = True
+        self.thread.join(10)
 _ctr = [0]
 
 
@@ -107,6 +169,11 @@ def make_input(cfg, data):
         return BufferAudioSource(data, sr, sw, ch), {}, []
     _ctr[0] += 1
     stem = os.path.join(tmpdir(), f"c10_{os.getpid()}_{_ctr[0]}")
+    if kind == "raw_fifo":
+        path = stem + ".fifo"
+        step = max(len(data) // 6, 1)
+        feeder = _FifoFeeder(path, data, [step + 1, max(step - 1, 1), 2, step + 2])
+        return path, dict(params, large_file=True, audio_format="raw"), [feeder.finish, path]
     if kind == "raw_lazy":
         path = stem + ".raw"
         with open(path, "wb") as fp:
@@ -266,6 +333,8 @@ def explicit_cases():
         dict(base, kind="stdin", mr=[11, 0.25]),
         dict(base, kind="stdin_pipe", N=40, H=None),
         dict(base, kind="stdin_pipe", N=37, mr=[30, 0]),
+        dict(base, kind="raw_fifo", N=41, H=None),
+        dict(base, kind="raw_fifo", N=23, mr=[17, 0.5]),
         dict(base, H=2, fb=0.25, fh=0.75, kind="raw_lazy"),
         dict(base, reject="tiny_block"),
         dict(base, reject="zero_block"),
@@ -295,7 +364,7 @@ def strategy(draw, maxN):
             cfg["fh"] = draw(st.sampled_from([0, 0.25, 0.5, 0.75]))
             if cfg["H"] == B and cfg["fh"] > cfg["fb"]:
                 cfg["fh"] = draw(st.sampled_from([0, cfg["fb"]]))
-    cfg["mr"] = draw(st.one_of(st.none(), st.tuples(st.integers(0, N + 10), st.sampled_from([0, 0.25, 0.75])).map(list)))
+    cfg["mr"] = draw(st.one_of(st.none(), st.tuples(st.integers(0, N + 10), st.sampled_from([0, 0.25, 0.5, 0.75])).map(list)))
     if cfg["kind"] == "buffer" and draw(st.booleans()):
         cfg["prepos"] = draw(st.integers(1, 9))
     return cfg
